@@ -300,6 +300,10 @@ func genC16Maps(level int) []*MapScen {
 			ms.C = c
 			ms.NoBlock = []bool{true, false}
 			ms.MaxSteps = []int{80, 0}
+			if ms.Table == TLongChain {
+				// one pass over a chain of 42-70 buckets takes 110-220 own steps; a second pass (a retry) exceeds the bound
+				ms.MaxSteps = []int{300, 0}
+			}
 			out = append(out, ms)
 		}
 		stallers := []MIn{opStore, opDelete, opLaS, opCPark, opCDel, opLoC, opClear, opRange}
